@@ -151,7 +151,7 @@ def write_file(c, inst, relpath, data):
     return i
 
 
-def session_script(c, rng, h, buf, pos, t, first=None, snaps=True):
+def session_script(c, rng, h, buf, pos, t, first=None, snaps=True, seeks=True, flushes=True):
     """a random script of write / seek / flush calls on write handle h; returns the bytes a growable
     cursor holds afterwards (generator-side belief only)"""
     buf = bytearray(buf)
@@ -169,6 +169,10 @@ def session_script(c, rng, h, buf, pos, t, first=None, snaps=True):
         put(first)
     for _ in range(rng.choice([0, 0, 1, 2, 3, 5])):
         r = rng.random()
+        if not seeks and 0.4 <= r < 0.75:
+            r = 0.1
+        if not flushes and r >= 0.75:
+            r = 0.1
         if r < 0.4:
             d = rng.choice([b"ZZ", b"\x00", b"patch", b"\xff\xfe", b"0123456789"])
             c.op("hwrite", h, vfx.hexs(d))
@@ -258,7 +262,8 @@ def arg_of(rng, p, hostile=None):
 
 
 def gen_history(c, g, rng, nops, typed=True, names=None, mix=None, snap_every=True, allow_big=True,
-                with_times=False, prepop_density=0.5, after_prepop=None, hostile=0.1, reuse_tree=None):
+                with_times=False, prepop_density=0.5, after_prepop=None, hostile=0.1, reuse_tree=None,
+                writer_seeks=True, writer_flushes=True):
     """append nops operations on the target to case c.  typed=True stays inside C01's domain."""
     names = names or rng.sample(NAMES, rng.randint(3, 4))
     HOSTILE[0] = hostile
@@ -314,7 +319,7 @@ def gen_history(c, g, rng, nops, typed=True, names=None, mix=None, snap_every=Tr
             i = c.op("createfile", vfx.ps(t, arg_of(rng, p)))
             ok = p[:-1] in tree.dirs and p not in tree.dirs and p != ()
             if ok:
-                data = session_script(c, rng, i, b"", 0, t, first=data, snaps=snap_every)
+                data = session_script(c, rng, i, b"", 0, t, first=data, snaps=snap_every, seeks=writer_seeks, flushes=writer_flushes)
                 c.op("hdrop", i)
                 tree.files[p] = data
             else:
@@ -330,7 +335,7 @@ def gen_history(c, g, rng, nops, typed=True, names=None, mix=None, snap_every=Tr
             data = pick_content(rng, False)
             i = c.op("appendfile", vfx.ps(t, arg_of(rng, p)))
             if p in tree.files:
-                if g.has_phys or rng.random() < 0.5:
+                if g.has_phys or not writer_seeks or rng.random() < 0.5:
                     c.op("hwrite", i, vfx.hexs(data))
                     tree.files[p] = tree.files[p] + data
                 else:
